@@ -220,7 +220,9 @@ def run_history(rng, args, out, C, hidx, script=None):
                 other = rng.choice([x for x in (".csv", ".log", None) if x != sfx])
                 w.add_test(f0, payload=(pexpr, other))
                 C["same_bytes_other_suffix_steps"] = C.get("same_bytes_other_suffix_steps", 0) + 1
-            elif edit == "break_test" and w.files[f0]:
+            elif edit == "break_test" and f0 != HELPER and w.files[f0]:
+                # (only in collected test files: a helper module whose function raises before its snapshot is
+                # evaluated is unknown to the tool and is not a "test file that took part")
                 # a bug in the code under test: the test fails before its snapshot is reached (its file still takes part)
                 cands = [t for t in w.files[f0].values() if t["arg"] and t["arg"].startswith("external(")] or list(w.files[f0].values())
                 rng.choice(cands)["broken"] = True
